@@ -230,7 +230,7 @@ func (ft *FT) evalIdent(e *ast.Ident) Val {
 				}
 				return scalar(vr.T)
 			}
-			return Val{T: vr.T, Pts: vr.Pts.copy()}
+			return Val{T: vr.T, Pts: vr.Pts.copy(), NoRef: vr.ZeroDecl && !vr.GotLost && len(vr.Pts) == 0}
 		}
 		if e.Obj.Kind == ast.Con {
 			return scalar(identT("int"))
